@@ -11,6 +11,8 @@ def genFacts : Facts :=
     mutableDefaults := Generated.c20MutableDefaults
     sharedObjectWrites := Generated.c20SharedObjectWrites
     argValFresh := Generated.c20ArgValFresh
+    argModeReturns := Generated.c20ArgModeReturns
+    argModeCacheStores := Generated.c20ArgModeCacheStores
     bbreprDef := Generated.c20BbreprDef
     bbreprGuard := Generated.c20BbreprGuard
     glomScope := Generated.c20GlomScope
